@@ -167,6 +167,13 @@ class C12(UdpCheck):
             cfg["duration"] = rng.choice([10.0, 30.0, 30.0, 90.0, 600.0] if tier == "quick" else [10.0, 60.0, 600.0, 1800.0])
             if cfg["duration"] > 100 and (min(c_keep or 0.1, s_keep or 0.1) < 0.1):
                 cfg["duration"] = 90.0
+            rng_j = random.Random("idle-junk|%s" % (rng.getstate()[1][:3],))      # (does not consume from the main stream)
+            if rng_j.random() < 0.5:
+                # now and then a stray datagram without a valid header reaches the idle client's socket (a port scan, a
+                # late datagram of somebody else's session): the link stays up and update() keeps returning
+                for j in range(rng_j.choice([1, 4])):
+                    plan.append({"op": "garbage", "global": True, "t": round(2.0 + rng_j.random() * (cfg["duration"] - 3.0), 3), "frm": "S", "to": "c0",
+                                 "n": j, "kind": rng_j.choice(["random", "random", "magic"]), "len": rng_j.choice([0, 3, 19, 20, 36, 200])})
         elif scen == "idle-long":
             # slow ticks keep the cost of hours of virtual time low; the oracle scales with the tick
             if i % 2 == 0:      # wrap the 16-bit ring on keep-alives alone (needs > 65535 datagrams per direction)
@@ -231,6 +238,19 @@ class C12(UdpCheck):
                 cfg["phases"] = [{"t0": 0.0, "t1": 10 ** 9, "src": "S", "delay": late_by, "delay_p": 1.0}]
                 cfg["late_answer"] = True
                 cfg["duration"] = max(cfg["duration"], late_by + 2.0)
+            elif not cfg.get("second_attempt") and rng_late.random() < 0.6:
+                # while the attempt is pending somebody sends the client datagrams that are no answer: CRC-valid
+                # SERVER_HELLO-typed datagrams with a meaningless body, junk. The attempt still ends after the timeout
+                to_ = cfg["connect_timeout"]
+                for j in range(rng_late.choice([1, 3])):
+                    tt = round(plan[0]["t"] + to_ * rng_late.choice([0.2, 0.5, 0.8]) + 0.01 * j, 4)
+                    if rng_late.random() < 0.6:
+                        plan.append({"op": "forge", "global": True, "t": tt, "frm": "S", "to": "c0", "type": 2, "inner": [2], "ack": "none",
+                                     "seq_off": 1 + j})
+                    else:
+                        plan.append({"op": "garbage", "global": True, "t": tt, "frm": "S", "to": "c0", "n": j,
+                                     "kind": rng_late.choice(["random", "magic", "header"]), "len": rng_late.choice([0, 5, 19, 20, 40, 300])})
+                cfg["junk_during_attempt"] = True
         else:   # setters: every order relative to connect
             vals = {"keep_alive": rng.choice([0.03, 0.2, 0.7]), "conn_timeout": rng.choice([0.7, 1.5, 4.0]),
                     "msg_timeout": rng.choice([0.4, 1.5, 2.5])}
@@ -256,6 +276,10 @@ class C12(UdpCheck):
         self.mon = TimingMonitor()
         self.qc = QueueConservation()
         return [self.mon, self.qc]
+
+    def prepare(self, w, case):
+        from world.attacker import Attacker
+        Attacker(w)
 
     def nontrivial(self, w, case):
         return getattr(w, "reached", False)
@@ -284,6 +308,12 @@ class C12(UdpCheck):
             if e["where"].startswith("setter"):
                 vs.append({"kind": "setter_raised", "key": "%s:%s:%s" % (e["where"], e["type"], "after-connect"),
                            "detail": e})
+            elif e["where"] == "update" and cfg.get("junk_during_attempt") and "Error" in e["type"] and not e["type"].endswith("IOError") \
+                    and e["type"] not in ("OSError", "TimeoutError", "AttributeError", "NameError", "TypeError"):
+                # a CRC-valid but meaningless SERVER_HELLO makes the hello parser of a key-less client raise out of
+                # update() (the repository's own tests expect that for a bad signature): outside C12; what is judged in
+                # this scenario is that the attempt still ends after the timeout, with one callback
+                w.probe("hello_parser_raised_out_of_update_before_key")
             elif e["where"] in ("connect", "update"):
                 vs.append({"kind": "client_api_raised", "key": "%s:%s" % (e["where"], e["type"]), "detail": e})
         statuses = [(t, st) for t, name, inc, st in w.status_log]
